@@ -9,12 +9,17 @@
  *   ser <T> <count> <cap>       -> ok <hex> | err:<kind>
  *        object from calloc, count as given (may exceed every capacity), the elements that exist set to 0x11.., output
  *        buffer malloc(<cap>) exactly
- * T = S8 | S16 | S7.  Hand-written against the PyDSDL definitions, not derived from the templates.
+ * T = S8 | S16 | S7 (capacity 6) | B255 | W255 | B65535 | B15 | B7 (capacity = 2^k-1).  Hand-written against the PyDSDL definitions, not derived from the templates.
  */
 #define _POSIX_C_SOURCE 200809L
 #include "ov/S8_1_0.h"
 #include "ov/S16_1_0.h"
 #include "ov/S7_1_0.h"
+#include "ov/B255_1_0.h"
+#include "ov/W255_1_0.h"
+#include "ov/B65535_1_0.h"
+#include "ov/B15_1_0.h"
+#include "ov/B7_1_0.h"
 #include <stddef.h>
 #include <stdio.h>
 #include <stdlib.h>
@@ -49,13 +54,13 @@ static size_t unhex(const char* s, uint8_t** out)
 #ifdef C04_NO_CHECK_MACRO
 #endif
 
-#define HANDLE(T, NAME, CHECKMACRO)                                                                                   \
+#define HANDLE(T, NAME, CHECKMACRO, CAP)                                                                                   \
     static int handle_##NAME(const char* op, const char* rest)                                                        \
     {                                                                                                                 \
         const size_t sl = sizeof(((T*) 0)->xs.elements) / sizeof(((T*) 0)->xs.elements[0]);                           \
         if (!strcmp(op, "info"))                                                                                      \
         {                                                                                                             \
-            printf("ok sl=%zu cap=6 check=%d sizeof=%zu\n", sl, CHECKMACRO, sizeof(T));                               \
+            printf("ok sl=%zu cap=%d check=%d sizeof=%zu\n", sl, CAP, CHECKMACRO, sizeof(T));                          \
             return 1;                                                                                                 \
         }                                                                                                             \
         if (!strcmp(op, "de"))                                                                                        \
@@ -115,10 +120,40 @@ static size_t unhex(const char* s, uint8_t** out)
 #else
 #    define S7_CHECK 1
 #endif
+#ifdef ov_B255_1_0_DISABLE_SERIALIZATION_BUFFER_CHECK_
+#    define B255_CHECK 0
+#else
+#    define B255_CHECK 1
+#endif
+#ifdef ov_W255_1_0_DISABLE_SERIALIZATION_BUFFER_CHECK_
+#    define W255_CHECK 0
+#else
+#    define W255_CHECK 1
+#endif
+#ifdef ov_B65535_1_0_DISABLE_SERIALIZATION_BUFFER_CHECK_
+#    define B65535_CHECK 0
+#else
+#    define B65535_CHECK 1
+#endif
+#ifdef ov_B15_1_0_DISABLE_SERIALIZATION_BUFFER_CHECK_
+#    define B15_CHECK 0
+#else
+#    define B15_CHECK 1
+#endif
+#ifdef ov_B7_1_0_DISABLE_SERIALIZATION_BUFFER_CHECK_
+#    define B7_CHECK 0
+#else
+#    define B7_CHECK 1
+#endif
 
-HANDLE(ov_S8_1_0, S8, S8_CHECK)
-HANDLE(ov_S16_1_0, S16, S16_CHECK)
-HANDLE(ov_S7_1_0, S7, S7_CHECK)
+HANDLE(ov_S8_1_0, S8, S8_CHECK, 6)
+HANDLE(ov_S16_1_0, S16, S16_CHECK, 6)
+HANDLE(ov_S7_1_0, S7, S7_CHECK, 6)
+HANDLE(ov_B255_1_0, B255, B255_CHECK, 255)
+HANDLE(ov_W255_1_0, W255, W255_CHECK, 255)
+HANDLE(ov_B65535_1_0, B65535, B65535_CHECK, 65535)
+HANDLE(ov_B15_1_0, B15, B15_CHECK, 15)
+HANDLE(ov_B7_1_0, B7, B7_CHECK, 7)
 
 int main(void)
 {
@@ -138,6 +173,11 @@ int main(void)
             if (!strcmp(ty, "S8")) { ok = handle_S8(op, rest); }
             else if (!strcmp(ty, "S16")) { ok = handle_S16(op, rest); }
             else if (!strcmp(ty, "S7")) { ok = handle_S7(op, rest); }
+            else if (!strcmp(ty, "B255")) { ok = handle_B255(op, rest); }
+            else if (!strcmp(ty, "W255")) { ok = handle_W255(op, rest); }
+            else if (!strcmp(ty, "B65535")) { ok = handle_B65535(op, rest); }
+            else if (!strcmp(ty, "B15")) { ok = handle_B15(op, rest); }
+            else if (!strcmp(ty, "B7")) { ok = handle_B7(op, rest); }
         }
         if (!ok) { puts("err:bad-op"); }
         fflush(stdout);
